@@ -15,7 +15,7 @@ func init() { register("C12", checkC12) }
 func checkC12(p *Prog, r *Result, tier string) {
 	r.Technique = "channel/wait-group protocol rules on go/cfg (close-on-all-paths, join-before-close, exactly-one-send patterns) plus the Txn compensation rules at the per-instance site"
 	r.Explanation = "H1 the result channel of doCreateWorkloads is closed exactly once, by a defer that is the first statement of the producing goroutine; H5 every goroutine that can send on it starts with defer wg.Done() and its wait group is waited on every path before the spawner returns; " +
-		"LED on the single-failure path of the alloc step every node whose allocation succeeded is in the list the rollback walks before any other step can fail (nothing created, no usage left behind); RBI the per-instance goroutines report failed instances to the rollback: the shared node error is only assigned under a non-nil test of the assigned value (a later success cannot erase an earlier failure) and the failed index is appended under that same test; H2 'exactly one message': the alloc step reports exactly one error message iff it fails (first-statement defer guarded by its named error result), each per-instance goroutine sends exactly once on every path (deferred send), the per-node failure branch sends `deploy` messages and returns; counts of wg.Add, spawn loop and failure loop are the same variable; " +
+		"LED on the single-failure path of the alloc step every node whose allocation succeeded is in the list the rollback walks before any other step can fail (nothing created, no usage left behind); RBSEL the rollback gives back the resources at the failed indices (not a prefix of the node's list); RBI the per-instance goroutines report failed instances to the rollback: the shared node error is only assigned under a non-nil test of the assigned value (a later success cannot erase an earlier failure) and the failed index is appended under that same test; H2 'exactly one message': the alloc step reports exactly one error message iff it fails (first-statement defer guarded by its named error result), each per-instance goroutine sends exactly once on every path (deferred send), the per-node failure branch sends `deploy` messages and returns; counts of wg.Add, spawn loop and failure loop are the same variable; " +
 		"T1-T3/TC at doDeployOneWorkload: a reported failure has removed record and container under the rollback context."
 	r.NotCovered = "relation of message contents to store/engine state; pool saturation (A3: a saturated non-blocking pool drops closures)"
 	r.Assumptions = []string{"A3 the worker pool runs every submitted closure"}
@@ -117,6 +117,8 @@ func checkC12(p *Prog, r *Result, tier string) {
 			ta.checkClosureCtx(r, createSite)
 		}
 	}
+	// RBSEL (shared with C10): a partial failure gives back the failed instances' own resources
+	checkRollbackSelection(p, r)
 }
 
 // checkFailureFanout: in G (doDeployWorkloadsOnNode) the only sends of its own body are in a counted loop over the same
